@@ -8,7 +8,7 @@ import json, os, subprocess, sys, shutil, time
 VERIF = os.path.dirname(os.path.dirname(os.path.abspath(__file__)))
 PY = "/venv/bin/python"
 ROUND = int(os.environ.get("SEED_ROUND", "2"))
-MAP = {2: {"a": "c", "b": "d", "c": "e"}, 3: {"a": "f", "b": "g"}, 4: {"a": "h", "b": "i"}}[ROUND]
+MAP = {2: {"a": "c", "b": "d", "c": "e"}, 3: {"a": "f", "b": "g"}, 4: {"a": "h", "b": "i"}, 5: {"a": "j", "b": "k"}}[ROUND]
 ORIGIN = {2: "independent sub-agent (round 2) given only the property text and a scratch worktree; asked for three changes on "
              "different mechanisms, at least one needing two cooperating sites or a multi-step history",
           3: "independent sub-agent (round 3) given only the property text and a scratch worktree; asked for (a) a plausible 'improvement' "
@@ -17,7 +17,11 @@ ORIGIN = {2: "independent sub-agent (round 2) given only the property text and a
           4: "independent sub-agent (round 4) given only the property text and a scratch worktree; asked for (a) an interaction defect - the edit "
              "in a shared helper / data structure (util, params, diagnostic_info, Model accessors, result classes), visible through one caller or "
              "option only - and (b) a numerical / boundary defect (tolerance, constant, < vs <=, off-by-one, order of floating-point operations) "
-             "that matters only at exact ties, extreme scalings, n = 1 / m = 1 or a count equal to its limit"}[ROUND]
+             "that matters only at exact ties, extreme scalings, n = 1 / m = 1 or a count equal to its limit",
+          5: "independent sub-agent (round 5) given only the property text and a scratch worktree; asked for (a) a pair of cooperating edits in two "
+             "different functions, each harmless alone (demo passes with either half alone), breaking the property only together, and (b) a "
+             "history-dependent defect (second or later run, base shift after a geometry step, slot replaced twice, seldom-used option combination, "
+             "early exit in a particular phase, object re-used / reloaded twice; stale state left behind by an earlier step)"}[ROUND]
 
 
 def sh(cmd):
